@@ -1,56 +1,566 @@
-(** Proofs for C15 (partial): reload = fold of apply, given the round trip of
-    the edit record as an explicit premise on the codec model. *)
-From Coq Require Import List Arith NArith Bool Lia.
-From NoKV Require Import Base.Bytes Base.Num Model.ManifestCodec Model.Manifest Spec.ManifestSpec.
+(** Proofs for C15. *)
+From Coq Require Import List Arith NArith ZArith Bool Lia ZifyN ZifyNat ZifyBool.
+From NoKV Require Import Base.Bytes Base.Num Base.Varint Model.PercoCodec Model.ManifestCodec Model.Manifest
+  Spec.ManifestSpec Proofs.CodecProofs Proofs.ManifestCodecProofs Proofs.AssocProofs.
 Import ListNotations.
 Local Open Scope N_scope.
 
-Section Reload.
-  (** [ok e]: the edits the premise speaks about; [cn e]: the value the decoder
-      returns for the encoding of [e] (uint32 truncations, nil sub-structs). *)
-  Variable ok : edit -> Prop.
-  Variable cn : edit -> edit.
-  Hypothesis rt_edit : forall e rest, ok e -> read_edit (enc_edit e ++ rest) = ReOk (cn e) rest.
+(** * 1. Replay of a file that holds encoded edits *)
 
-  Definition enc_all (es : list edit) : bytes := concat (map enc_edit es).
+Lemma enc_all_app a b : enc_all (a ++ b) = enc_all a ++ enc_all b.
+Proof. unfold enc_all. now rewrite map_app, concat_app. Qed.
 
-  Lemma replay_bytes_enc es : forall fuel v tail,
-    Forall ok es -> (length es < fuel)%nat ->
-    replay_bytes fuel v (enc_all es ++ tail) = replay_bytes (fuel - length es) (apply_all v (map cn es)) tail.
-  Proof.
-    induction es as [|e es IH]; intros fuel v tail Hok Hf.
-    - cbn. now rewrite Nat.sub_0_r.
-    - inversion Hok as [|? ? He Hes]; subst. destruct fuel as [|f]; [simpl in Hf; lia|].
-      unfold enc_all. cbn [map concat]. rewrite <- app_assoc. cbn [replay_bytes]. rewrite rt_edit by exact He.
-      fold (enc_all es). rewrite IH by (auto; simpl in Hf; lia). reflexivity.
-  Qed.
+Lemma enc_all_cons e es : enc_all (e :: es) = enc_edit e ++ enc_all es.
+Proof. reflexivity. Qed.
 
-  (** every appended edit is at least 4 bytes, so the fuel of [replay_manifest] suffices *)
-  Lemma length_enc_all es : (length es <= length (enc_all es))%nat.
-  Proof.
-    induction es as [|e es IH]; [simpl; lia|].
-    unfold enc_all in *. cbn [map concat]. rewrite app_length. unfold enc_edit at 1. rewrite app_length.
-    cbn [le32 be32 rev app length]. simpl length. lia.
-  Qed.
+Lemma apply_cn v e : apply v (cn e) = apply v e.
+Proof.
+  destruct e as [f|f|s o|[m|]|[m|]|[m|]|[r|]|[r|]|t]; try reflexivity.
+  cbn [cn]. destruct (re_delete r) eqn:E; [|reflexivity].
+  cbn [apply re_delete re_meta empty_region rg_id]. now rewrite E.
+Qed.
 
-  Lemma reload es :
-    Forall ok es -> replay_manifest (enc_all es) = RpOk (apply_all empty_version (map cn es)).
-  Proof.
-    intro Hok. unfold replay_manifest. rewrite <- (app_nil_r (enc_all es)) at 2.
-    pose proof (length_enc_all es) as Hl.
-    rewrite replay_bytes_enc by (auto; lia).
-    destruct (S (length (enc_all es)) - length es)%nat eqn:E; [lia|]. reflexivity.
-  Qed.
+Lemma apply_all_cn es : forall v, apply_all v (map cn es) = apply_all v es.
+Proof.
+  unfold apply_all. induction es as [|e es IH]; intro v; [reflexivity|].
+  cbn [map fold_left]. now rewrite apply_cn, IH.
+Qed.
 
-  (** a torn last write: any proper prefix of the next record is ignored or rejected, never applied *)
-  Lemma reload_then_eof es : Forall ok es ->
-    forall tail, read_edit tail = ReEof ->
-    replay_manifest (enc_all es ++ tail) = RpOk (apply_all empty_version (map cn es)).
-  Proof.
-    intros Hok tail Ht. unfold replay_manifest.
-    pose proof (length_enc_all es) as Hl.
-    rewrite replay_bytes_enc by (auto; rewrite app_length; lia).
-    destruct (S (length (enc_all es ++ tail)) - length es)%nat eqn:E; [rewrite app_length in E; lia|].
-    cbn [replay_bytes]. now rewrite Ht.
-  Qed.
-End Reload.
+Lemma apply_all_app v a b : apply_all v (a ++ b) = apply_all (apply_all v a) b.
+Proof. unfold apply_all. apply fold_left_app. Qed.
+
+Lemma replay_bytes_enc es : forall fuel v tail,
+  Forall edit_ok es -> (length es < fuel)%nat ->
+  replay_bytes fuel v (enc_all es ++ tail) = replay_bytes (fuel - length es) (apply_all v es) tail.
+Proof.
+  induction es as [|e es IH]; intros fuel v tail Hok Hf.
+  - cbn. now rewrite Nat.sub_0_r.
+  - inversion Hok as [|? ? He Hes]; subst. destruct fuel as [|f]; [simpl in Hf; lia|].
+    rewrite enc_all_cons, <- app_assoc. cbn [replay_bytes]. rewrite rt_edit by exact He.
+    rewrite IH by (auto; simpl in Hf; lia). cbn [apply_all fold_left length Nat.sub]. now rewrite apply_cn.
+Qed.
+
+Lemma length_enc_all es : (length es <= length (enc_all es))%nat.
+Proof.
+  induction es as [|e es IH]; [simpl; lia|].
+  rewrite enc_all_cons, app_length. unfold enc_edit at 1. rewrite app_length.
+  cbn [le32 be32 rev app length]. simpl length. lia.
+Qed.
+
+Lemma replay_enc es : Forall edit_ok es -> replay_manifest (enc_all es) = RpOk (apply_all empty_version es).
+Proof.
+  intro Hok. unfold replay_manifest. rewrite <- (app_nil_r (enc_all es)) at 2.
+  pose proof (length_enc_all es) as Hl.
+  rewrite replay_bytes_enc by (auto; lia).
+  destruct (S (length (enc_all es)) - length es)%nat eqn:E; [lia|]. reflexivity.
+Qed.
+
+(** * 2. Files of one level: sorting by id, removal *)
+
+Definition ids (l : list file_meta) : list N := map fm_id l.
+
+Lemma insert_comm a f l :
+  fm_id a <> fm_id f -> insert_file a (insert_file f l) = insert_file f (insert_file a l).
+Proof.
+  intro Hne. induction l as [|g l IH]; cbn [insert_file].
+  - destruct (fm_id a <? fm_id f) eqn:E1; destruct (fm_id f <? fm_id a) eqn:E2; try reflexivity; lia.
+  - destruct (fm_id f <? fm_id g) eqn:Ef; destruct (fm_id a <? fm_id g) eqn:Ea; cbn [insert_file];
+      rewrite ?Ef, ?Ea.
+    + destruct (fm_id a <? fm_id f) eqn:E1; destruct (fm_id f <? fm_id a) eqn:E2; try reflexivity; lia.
+    + destruct (fm_id a <? fm_id f) eqn:E1; [lia|reflexivity].
+    + destruct (fm_id f <? fm_id a) eqn:E2; [lia|reflexivity].
+    + now rewrite IH.
+Qed.
+
+Lemma in_insert x f l : In x (insert_file f l) <-> x = f \/ In x l.
+Proof.
+  induction l as [|g l IH]; cbn [insert_file].
+  - cbn. intuition.
+  - destruct (fm_id f <? fm_id g); cbn [In]; [intuition|]. rewrite IH. intuition.
+Qed.
+
+Lemma in_sort x l : In x (sort_files l) <-> In x l.
+Proof.
+  unfold sort_files. induction l as [|g l IH]; cbn [fold_right In]; [reflexivity|].
+  rewrite in_insert, IH. intuition.
+Qed.
+
+Lemma sort_snoc l f :
+  ~ In (fm_id f) (ids l) -> sort_files (l ++ [f]) = insert_file f (sort_files l).
+Proof.
+  unfold sort_files. induction l as [|g l IH]; intro Hn; [reflexivity|].
+  cbn [app fold_right]. rewrite IH.
+  - apply insert_comm. intro E. apply Hn. left. exact E.
+  - intro H. apply Hn. right. exact H.
+Qed.
+
+(** non-strictly sorted by id *)
+Fixpoint fsorted (l : list file_meta) : Prop :=
+  match l with
+  | [] => True
+  | g :: l' => Forall (fun h => fm_id g <= fm_id h) l' /\ fsorted l'
+  end.
+
+Lemma fsorted_insert f l : fsorted l -> fsorted (insert_file f l).
+Proof.
+  induction l as [|g l IH]; intro Hs; cbn [insert_file].
+  - cbn. split; [constructor|exact I].
+  - destruct Hs as [Hg Hs]. destruct (fm_id f <? fm_id g) eqn:E.
+    + cbn [fsorted]. split; [|split; assumption].
+      constructor; [lia|]. rewrite Forall_forall in *. intros h Hh. specialize (Hg h Hh). lia.
+    + cbn [fsorted]. split; [|auto].
+      rewrite Forall_forall in *. intros h Hh. apply in_insert in Hh. destruct Hh as [->|Hh]; [lia|auto].
+Qed.
+
+Lemma fsorted_sort l : fsorted (sort_files l).
+Proof. unfold sort_files. induction l; cbn [fold_right]; [exact I|now apply fsorted_insert]. Qed.
+
+Lemma insert_head f l : fsorted l -> Forall (fun h => fm_id f < fm_id h) l -> insert_file f l = f :: l.
+Proof.
+  destruct l as [|g l]; intros Hs Hf; cbn [insert_file]; [reflexivity|].
+  inversion Hf; subst. destruct (fm_id f <? fm_id g) eqn:E; [reflexivity|lia].
+Qed.
+
+Lemma sort_sorted l : fsorted l -> NoDup (ids l) -> sort_files l = l.
+Proof.
+  unfold sort_files. induction l as [|g l IH]; intros Hs Hn; [reflexivity|].
+  destruct Hs as [Hg Hs]. inversion Hn as [|? ? Hni Hn']; subst. cbn [fold_right]. rewrite IH by assumption.
+  apply insert_head; [exact Hs|].
+  rewrite Forall_forall in *. intros h Hh. specialize (Hg h Hh).
+  assert (fm_id g <> fm_id h) by (intro E; apply Hni; rewrite E; now apply in_map). lia.
+Qed.
+
+Lemma ids_insert x f l : In x (ids (insert_file f l)) <-> x = fm_id f \/ In x (ids l).
+Proof.
+  unfold ids. rewrite !in_map_iff. split.
+  - intros [h [E Hh]]. apply in_insert in Hh. destruct Hh as [->|Hh]; [now left|right; eauto].
+  - intros [->|[h [E Hh]]]; [exists f; split; [reflexivity|apply in_insert; now left]|].
+    exists h. split; [exact E|apply in_insert; now right].
+Qed.
+
+Lemma ids_sort x l : In x (ids (sort_files l)) <-> In x (ids l).
+Proof.
+  unfold ids. rewrite !in_map_iff. split; intros [h [E Hh]]; exists h; (split; [exact E|]); now apply in_sort.
+Qed.
+
+Lemma nodup_insert f l : NoDup (ids l) -> ~ In (fm_id f) (ids l) -> NoDup (ids (insert_file f l)).
+Proof.
+  induction l as [|g l IH]; intros Hn Hf; cbn [insert_file].
+  - cbn. constructor; [auto|constructor].
+  - destruct (fm_id f <? fm_id g); [cbn [ids map]; constructor; assumption|].
+    inversion Hn as [|? ? Hg Hn']; subst. cbn [ids map]. constructor.
+    + fold (ids (insert_file f l)). rewrite ids_insert. intros [E|H]; [apply Hf; left; now symmetry|contradiction].
+    + apply IH; [exact Hn'|]. intro H. apply Hf. now right.
+Qed.
+
+Lemma nodup_sort l : NoDup (ids l) -> NoDup (ids (sort_files l)).
+Proof.
+  unfold sort_files. induction l as [|g l IH]; intro Hn; cbn [fold_right]; [constructor|].
+  inversion Hn; subst. apply nodup_insert; [auto|]. fold (sort_files l). now rewrite ids_sort.
+Qed.
+
+Lemma remove_file_notin id l : ~ In id (ids l) -> remove_file id l = l.
+Proof.
+  induction l as [|g l IH]; intro Hn; cbn [remove_file]; [reflexivity|].
+  destruct (fm_id g =? id) eqn:E; [exfalso; apply Hn; left; lia|].
+  rewrite IH; [reflexivity|]. intro H. apply Hn. now right.
+Qed.
+
+Lemma remove_insert_same id g l : ~ In id (ids l) -> fm_id g = id -> remove_file id (insert_file g l) = l.
+Proof.
+  intros Hn Hg. induction l as [|h l IH]; cbn [insert_file remove_file].
+  - replace (fm_id g =? id) with true by lia. reflexivity.
+  - destruct (fm_id g <? fm_id h); cbn [remove_file].
+    + replace (fm_id g =? id) with true by lia. reflexivity.
+    + destruct (fm_id h =? id) eqn:E; [exfalso; apply Hn; left; lia|].
+      rewrite IH; [reflexivity|]. intro H. apply Hn. now right.
+Qed.
+
+Lemma remove_insert_other id g l :
+  fsorted l -> NoDup (ids l) -> ~ In (fm_id g) (ids l) -> fm_id g <> id ->
+  remove_file id (insert_file g l) = insert_file g (remove_file id l).
+Proof.
+  intros Hs Hn Hgi Hg. induction l as [|h l IH]; cbn [insert_file remove_file].
+  - replace (fm_id g =? id) with false by lia. reflexivity.
+  - destruct Hs as [Hh Hs]. inversion Hn as [|? ? Hhi Hn']; subst.
+    destruct (fm_id g <? fm_id h) eqn:E1; cbn [remove_file].
+    + replace (fm_id g =? id) with false by lia.
+      destruct (fm_id h =? id) eqn:E2.
+      * symmetry. apply insert_head; [exact Hs|].
+        rewrite Forall_forall in *. intros k Hk. specialize (Hh k Hk). lia.
+      * cbn [insert_file]. now rewrite E1.
+    + destruct (fm_id h =? id) eqn:E2; [reflexivity|].
+      cbn [insert_file]. rewrite E1. f_equal. apply IH; auto.
+      intro H. apply Hgi. now right.
+Qed.
+
+Lemma sort_remove id l : NoDup (ids l) -> sort_files (remove_file id l) = remove_file id (sort_files l).
+Proof.
+  unfold sort_files. induction l as [|g l IH]; intro Hn; [reflexivity|].
+  inversion Hn as [|? ? Hg Hn']; subst. cbn [remove_file fold_right].
+  destruct (fm_id g =? id) eqn:E.
+  - symmetry. apply remove_insert_same; [|lia]. fold (sort_files l). rewrite ids_sort.
+    replace id with (fm_id g) by lia. exact Hg.
+  - cbn [fold_right]. rewrite IH by exact Hn'. symmetry.
+    apply remove_insert_other; [apply fsorted_sort|now apply nodup_sort| |lia].
+    fold (sort_files l). now rewrite ids_sort.
+Qed.
+
+Lemma ids_remove x id l : In x (ids (remove_file id l)) -> In x (ids l).
+Proof.
+  induction l as [|g l IH]; cbn [remove_file]; [auto|].
+  destruct (fm_id g =? id); [intro; now right|]. cbn [ids map In]. intros [H|H]; [now left|right; auto].
+Qed.
+
+Lemma nodup_remove id l : NoDup (ids l) -> NoDup (ids (remove_file id l)).
+Proof.
+  induction l as [|g l IH]; intro Hn; cbn [remove_file]; [constructor|].
+  inversion Hn as [|? ? Hg Hn']; subst. destruct (fm_id g =? id); [exact Hn'|].
+  cbn [ids map]. constructor; [|auto]. intro H. apply Hg. now apply ids_remove in H.
+Qed.
+
+Lemma in_remove_file x id l : In x (remove_file id l) -> In x l.
+Proof.
+  induction l as [|g l IH]; cbn [remove_file]; [auto|].
+  destruct (fm_id g =? id); [intro; now right|]. intros [H|H]; [now left|right; auto].
+Qed.
+
+Lemma existsb_ids id l : existsb (fun g => fm_id g =? id) l = true <-> In id (ids l).
+Proof.
+  rewrite existsb_exists. unfold ids. rewrite in_map_iff. split; intros [g [H1 H2]]; exists g.
+  - split; [lia|exact H1].
+  - split; [exact H2|lia].
+Qed.
+
+(** * 3. Key orders, level files after an edit *)
+
+Lemma Neqb_spec a b : N.eqb a b = true <-> a = b. Proof. apply N.eqb_eq. Qed.
+Lemma Nltb_irrefl a : N.ltb a a = false. Proof. apply N.ltb_irrefl. Qed.
+Lemma Nltb_trans a b c : N.ltb a b = true -> N.ltb b c = true -> N.ltb a c = true. Proof. lia. Qed.
+Lemma Nltb_total a b : N.ltb a b = false -> N.eqb a b = false -> N.ltb b a = true. Proof. lia. Qed.
+
+Lemma Peqb_spec a b : pair_eqb a b = true <-> a = b.
+Proof. destruct a, b. unfold pair_eqb. cbn [fst snd]. split; [intro H; f_equal; lia|intro H; inversion H; lia]. Qed.
+Lemma Pltb_irrefl a : pair_ltb a a = false. Proof. destruct a. unfold pair_ltb. cbn [fst snd]. lia. Qed.
+Lemma Pltb_trans a b c : pair_ltb a b = true -> pair_ltb b c = true -> pair_ltb a c = true.
+Proof. destruct a, b, c. unfold pair_ltb. cbn [fst snd]. lia. Qed.
+Lemma Pltb_total a b : pair_ltb a b = false -> pair_eqb a b = false -> pair_ltb b a = true.
+Proof. destruct a, b. unfold pair_ltb, pair_eqb. cbn [fst snd]. lia. Qed.
+
+Notation Nlookup_upsert := (lookup_upsert N.ltb N.eqb Neqb_spec).
+Notation Plookup_upsert := (lookup_upsert pair_ltb pair_eqb Peqb_spec).
+Notation Nsorted := (sorted N.ltb).
+Notation Psorted := (sorted pair_ltb).
+
+Lemma level_files_add v f lv :
+  level_files (apply v (EAddFile f)) lv =
+  if lv =? fm_level f then level_files v lv ++ [f] else level_files v lv.
+Proof.
+  unfold level_files at 1. cbn [apply set_levels v_levels]. rewrite Nlookup_upsert.
+  destruct (lv =? fm_level f) eqn:E; [|reflexivity]. apply N.eqb_eq in E. now subst.
+Qed.
+
+Lemma level_files_del v f lv :
+  level_files (apply v (EDeleteFile f)) lv =
+  if lv =? fm_level f then remove_file (fm_id f) (level_files v lv) else level_files v lv.
+Proof.
+  cbn [apply]. unfold level_files at 2 3.
+  destruct (lookup N.eqb (fm_level f) (v_levels v)) as [fs|] eqn:El.
+  - destruct (existsb (fun g => fm_id g =? fm_id f) fs) eqn:Ex.
+    + unfold level_files. cbn [set_levels v_levels]. rewrite Nlookup_upsert.
+      destruct (lv =? fm_level f) eqn:E; [|reflexivity]. apply N.eqb_eq in E. subst. now rewrite El.
+    + unfold level_files. destruct (lv =? fm_level f) eqn:E; [|reflexivity]. apply N.eqb_eq in E. subst.
+      rewrite El. symmetry. apply remove_file_notin. intro H. apply existsb_ids in H. congruence.
+  - unfold level_files. destruct (lv =? fm_level f) eqn:E; [|reflexivity]. apply N.eqb_eq in E. subst.
+    now rewrite El.
+Qed.
+
+Definition is_file_edit (e : edit) : bool := match e with EAddFile _ | EDeleteFile _ => true | _ => false end.
+
+Lemma level_files_other v e lv : is_file_edit e = false -> level_files (apply v e) lv = level_files v lv.
+Proof.
+  destruct e as [f|f|s o|[m|]|[m|]|[m|]|[r|]|[r|]|t]; cbn [is_file_edit]; intro H; try discriminate; reflexivity.
+Qed.
+
+(** the non-level part of a version *)
+Definition rest_of (v : version) := (v_logseg v, v_logoff v, v_vlogs v, v_heads v, v_rafts v, v_regions v).
+
+Lemma rest_file_edit v e : is_file_edit e = true -> rest_of (apply v e) = rest_of v.
+Proof.
+  destruct e as [f|f|s o|[m|]|[m|]|[m|]|[r|]|[r|]|t]; cbn [is_file_edit]; intro H; try discriminate.
+  - reflexivity.
+  - cbn [apply]. destruct (lookup N.eqb (fm_level f) (v_levels v)); [|reflexivity].
+    destruct (existsb _ _); reflexivity.
+Qed.
+
+Lemma rest_congr a b e : rest_of a = rest_of b -> rest_of (apply a e) = rest_of (apply b e).
+Proof.
+  intro H. destruct (is_file_edit e) eqn:Ef; [now rewrite !rest_file_edit|].
+  unfold rest_of in H. inversion H as [[H1 H2 H3 H4 H5 H6]].
+  destruct e as [f|f|s o|[m|]|[m|]|[m|]|[r|]|[r|]|t]; try discriminate; unfold rest_of;
+    cbn [apply set_vlog v_logseg v_logoff v_vlogs v_heads v_rafts v_regions]; unfold head_is;
+    rewrite ?H1, ?H2, ?H3, ?H4, ?H5, ?H6; reflexivity.
+Qed.
+
+(** * 4. version_eq is preserved by every edit *)
+
+Definition lnodup (v : version) : Prop := forall lv, NoDup (ids (level_files v lv)).
+
+Definition fresh (v : version) (e : edit) : Prop :=
+  match e with EAddFile f => ~ In (fm_id f) (ids (level_files v (fm_level f))) | _ => True end.
+
+Lemma nodup_snoc (l : list N) x : NoDup l -> ~ In x l -> NoDup (l ++ [x]).
+Proof.
+  induction l as [|y l IH]; intros Hn Hx; cbn [app]; [constructor; [auto|constructor]|].
+  inversion Hn as [|? ? Hy Hn']; subst. constructor.
+  - rewrite in_app_iff. intros [H|[H|[]]]; [contradiction|]. apply Hx. left. now symmetry.
+  - apply IH; [exact Hn'|]. intro H. apply Hx. now right.
+Qed.
+
+Lemma lnodup_apply v e : lnodup v -> fresh v e -> lnodup (apply v e).
+Proof.
+  intros Hn Hf lv. destruct (is_file_edit e) eqn:Ef; [|rewrite level_files_other by exact Ef; apply Hn].
+  destruct e as [f|f|s o|[m|]|[m|]|[m|]|[r|]|[r|]|t]; try discriminate.
+  - rewrite level_files_add. destruct (lv =? fm_level f) eqn:E; [|apply Hn]. apply N.eqb_eq in E. subst.
+    unfold ids. rewrite map_app. cbn [map]. fold (ids (level_files v (fm_level f))).
+    apply nodup_snoc; [apply Hn|exact Hf].
+  - rewrite level_files_del. destruct (lv =? fm_level f); [apply nodup_remove|]; apply Hn.
+Qed.
+
+Lemma version_eq_alt a b :
+  version_eq a b <-> (forall lv, sort_files (level_files a lv) = sort_files (level_files b lv)) /\ rest_of a = rest_of b.
+Proof.
+  unfold version_eq, rest_of. split.
+  - intros (H0 & H1 & H2 & H3 & H4 & H5 & H6). split; [exact H0|]. now rewrite H1, H2, H3, H4, H5, H6.
+  - intros [H0 H]. inversion H. repeat split; assumption.
+Qed.
+
+Lemma version_eq_refl a : version_eq a a.
+Proof. apply version_eq_alt. split; reflexivity. Qed.
+
+Lemma version_eq_trans a b c : version_eq a b -> version_eq b c -> version_eq a c.
+Proof.
+  rewrite !version_eq_alt. intros [H1 H2] [H3 H4]. split; [intro lv; now rewrite H1|congruence].
+Qed.
+
+Lemma fresh_eq a b e : version_eq a b -> fresh a e -> fresh b e.
+Proof.
+  intros Hq Hf. destruct e; try exact I. cbn [fresh] in *. destruct Hq as [H0 _].
+  rewrite <- ids_sort, <- H0, ids_sort. exact Hf.
+Qed.
+
+Lemma version_eq_apply a b e :
+  version_eq a b -> lnodup a -> lnodup b -> fresh a e -> version_eq (apply a e) (apply b e).
+Proof.
+  intros Hq Ha Hb Hf. pose proof (fresh_eq _ _ _ Hq Hf) as Hfb.
+  apply version_eq_alt in Hq. destruct Hq as [H0 Hr]. apply version_eq_alt.
+  split; [|now apply rest_congr]. intro lv.
+  destruct (is_file_edit e) eqn:Ef; [|now rewrite !level_files_other].
+  destruct e as [f|f|s o|[m|]|[m|]|[m|]|[r|]|[r|]|t]; try discriminate.
+  - rewrite !level_files_add. destruct (lv =? fm_level f) eqn:E; [|apply H0]. apply N.eqb_eq in E. subst.
+    cbn [fresh] in *. rewrite !sort_snoc by assumption. now rewrite H0.
+  - rewrite !level_files_del. destruct (lv =? fm_level f); [|apply H0].
+    rewrite !sort_remove by (apply Ha || apply Hb). now rewrite H0.
+Qed.
+
+(** histories: every edit fits its Go types and AddFile never re-adds a file id that is in the level *)
+Fixpoint hist_ok (v : version) (es : list edit) : Prop :=
+  match es with
+  | [] => True
+  | e :: es' => edit_ok e /\ fresh v e /\ hist_ok (apply v e) es'
+  end.
+
+Lemma hist_ok_edits v es : hist_ok v es -> Forall edit_ok es.
+Proof. revert v. induction es as [|e es IH]; intros v H; [constructor|]. destruct H as (H1 & _ & H3). constructor; eauto. Qed.
+
+Lemma hist_ok_app v a b : hist_ok v (a ++ b) <-> hist_ok v a /\ hist_ok (apply_all v a) b.
+Proof.
+  revert v. induction a as [|e a IH]; intro v; cbn [app hist_ok apply_all fold_left]; [tauto|].
+  rewrite IH. unfold apply_all. tauto.
+Qed.
+
+Lemma lnodup_apply_all es : forall v, lnodup v -> hist_ok v es -> lnodup (apply_all v es).
+Proof.
+  induction es as [|e es IH]; intros v Hn Hh; [exact Hn|].
+  destruct Hh as (_ & Hf & Hh). cbn [apply_all fold_left]. apply IH; [now apply lnodup_apply|exact Hh].
+Qed.
+
+Lemma version_eq_apply_all es : forall a b,
+  version_eq a b -> lnodup a -> lnodup b -> hist_ok a es ->
+  version_eq (apply_all a es) (apply_all b es) /\ hist_ok b es.
+Proof.
+  induction es as [|e es IH]; intros a b Hq Ha Hb Hh; [split; [exact Hq|exact I]|].
+  destruct Hh as (Hok & Hf & Hh). cbn [apply_all fold_left hist_ok].
+  pose proof (fresh_eq _ _ _ Hq Hf) as Hfb.
+  destruct (IH (apply a e) (apply b e)) as [Hq' Hh'];
+    [now apply version_eq_apply|now apply lnodup_apply|now apply lnodup_apply|exact Hh|].
+  split; [exact Hq'|split; [exact Hok|split; [exact Hfb|exact Hh']]].
+Qed.
+
+Lemma lnodup_empty : lnodup empty_version.
+Proof. intro lv. cbn. constructor. Qed.
+
+(** * 5. Well-formed versions *)
+
+Record winv (v : version) : Prop := {
+  wi_ls : Nsorted (v_levels v);
+  wi_lf : forall lv fs, lookup N.eqb lv (v_levels v) = Some fs ->
+          Forall (fun f => fm_level f = lv /\ edit_ok (EAddFile f)) fs;
+  wi_log : v_logseg v < two32 /\ v_logoff v < two64;
+  wi_vs : Psorted (v_vlogs v);
+  wi_vl : forall k m, lookup pair_eqb k (v_vlogs v) = Some m -> k = (vl_bucket m, vl_fid m) /\ vlog_ok m;
+  wi_hs : Nsorted (v_heads v);
+  wi_hd : forall b m, lookup N.eqb b (v_heads v) = Some m ->
+          b = vl_bucket m /\ vl_valid m = true /\ lookup pair_eqb (vl_bucket m, vl_fid m) (v_vlogs v) = Some m;
+  wi_rs : Nsorted (v_rafts v);
+  wi_rf : forall g r, lookup N.eqb g (v_rafts v) = Some r -> g = rp_group r /\ raft_ok r;
+  wi_gs : Nsorted (v_regions v);
+  wi_rg : forall i m, lookup N.eqb i (v_regions v) = Some m ->
+          i = rg_id m /\ edit_ok (ERegion (Some {| re_meta := m; re_delete := false |}))
+}.
+
+Lemma winv_empty : winv empty_version.
+Proof.
+  constructor; cbn; try exact I; try (intros; discriminate). unfold two32, two64. lia.
+Qed.
+
+Notation Nsorted_upsert := (sorted_upsert N.ltb N.eqb Neqb_spec Nltb_trans Nltb_total).
+Notation Psorted_upsert := (sorted_upsert pair_ltb pair_eqb Peqb_spec Pltb_trans Pltb_total).
+Notation Nsorted_remove := (sorted_remove N.ltb N.eqb).
+Notation Nlookup_remove := (lookup_remove N.ltb N.eqb Neqb_spec Nltb_irrefl).
+
+Lemma level_files_lookup v lv :
+  Forall (fun f => fm_level f = lv /\ edit_ok (EAddFile f)) (level_files v lv) <->
+  (forall fs, lookup N.eqb lv (v_levels v) = Some fs -> Forall (fun f => fm_level f = lv /\ edit_ok (EAddFile f)) fs).
+Proof.
+  unfold level_files. destruct (lookup N.eqb lv (v_levels v)) as [fs|].
+  - split; [intros H fs' E; now inversion E; subst|intro H; now apply H].
+  - split; [intros _ fs E; discriminate|intros _; constructor].
+Qed.
+
+Lemma head_is_spec v b f :
+  head_is v b f = true <-> exists h, lookup N.eqb b (v_heads v) = Some h /\ vl_fid h = f.
+Proof.
+  unfold head_is. destruct (lookup N.eqb b (v_heads v)) as [h|].
+  - split; [intro H; exists h; split; [reflexivity|lia]|intros [h' [E1 E2]]; inversion E1; subst; lia].
+  - split; [discriminate|intros [h [E _]]; discriminate].
+Qed.
+
+(** heads stay consistent when the value-log entry [key] is overwritten and no
+    surviving head points at [key] *)
+Lemma heads_keep v key m' heads' :
+  winv v ->
+  (forall b h, lookup N.eqb b heads' = Some h ->
+     lookup N.eqb b (v_heads v) = Some h /\ (vl_bucket h, vl_fid h) <> key) ->
+  forall b h, lookup N.eqb b heads' = Some h ->
+    b = vl_bucket h /\ vl_valid h = true /\
+    lookup pair_eqb (vl_bucket h, vl_fid h) (upsert pair_ltb pair_eqb key m' (v_vlogs v)) = Some h.
+Proof.
+  intros Hw Hk b h Hl. destruct (Hk b h Hl) as [Ho Hne].
+  destruct (wi_hd v Hw b h Ho) as (H1 & H2 & H3). repeat split; try assumption.
+  rewrite Plookup_upsert. destruct (pair_eqb (vl_bucket h, vl_fid h) key) eqn:E; [|exact H3].
+  apply Peqb_spec in E. contradiction.
+Qed.
+
+Lemma winv_apply v e : winv v -> edit_ok e -> winv (apply v e).
+Proof.
+  intros Hw [Hb Hlen].
+  destruct e as [f|f|s o|[m|]|[m|]|[m|]|[r|]|[r|]|t]; try exact Hw; cbn [body_ok] in Hb.
+  - (* AddFile *)
+    destruct Hw. constructor; cbn [apply set_levels v_levels v_logseg v_logoff v_vlogs v_heads v_rafts v_regions]; try assumption.
+    + now apply Nsorted_upsert.
+    + intros lv fs. rewrite Nlookup_upsert. destruct (lv =? fm_level f) eqn:E; [|apply wi_lf0].
+      apply N.eqb_eq in E. subst lv. intro H. inversion H; subst. apply Forall_app. split.
+      * apply level_files_lookup. apply wi_lf0.
+      * constructor; [|constructor]. split; [reflexivity|]. split; assumption.
+  - (* DeleteFile *)
+    cbn [apply]. destruct (lookup N.eqb (fm_level f) (v_levels v)) as [fs|] eqn:El; [|exact Hw].
+    destruct (existsb _ fs); [|exact Hw].
+    destruct Hw. constructor; cbn [set_levels v_levels v_logseg v_logoff v_vlogs v_heads v_rafts v_regions]; try assumption.
+    + now apply Nsorted_upsert.
+    + intros lv fs'. rewrite Nlookup_upsert. destruct (lv =? fm_level f) eqn:E; [|apply wi_lf0].
+      apply N.eqb_eq in E. subst lv. intro H. inversion H; subst.
+      specialize (wi_lf0 _ _ El). rewrite Forall_forall in *. intros x Hx. apply wi_lf0. now apply in_remove_file in Hx.
+  - (* LogPointer *)
+    destruct Hw. constructor; cbn [apply v_levels v_logseg v_logoff v_vlogs v_heads v_rafts v_regions]; assumption.
+  - (* VlogHead *)
+    destruct Hb as (B1 & B2 & B3).
+    set (m' := {| vl_bucket := vl_bucket m; vl_fid := vl_fid m; vl_offset := vl_offset m; vl_valid := true |}).
+    pose proof Hw as Hw0. destruct Hw.
+    constructor; cbn [apply set_vlog v_levels v_logseg v_logoff v_vlogs v_heads v_rafts v_regions]; fold m'; try assumption.
+    + now apply Psorted_upsert.
+    + intros k x. rewrite Plookup_upsert. destruct (pair_eqb k (vl_bucket m, vl_fid m)) eqn:E; [|apply wi_vl0].
+      apply Peqb_spec in E. intro H. inversion H; subst. split; [reflexivity|]. repeat split; assumption.
+    + now apply Nsorted_upsert.
+    + intros b h. rewrite Nlookup_upsert. destruct (b =? vl_bucket m) eqn:E.
+      * apply N.eqb_eq in E. intro H. inversion H; subst. repeat split.
+        cbn [vl_bucket vl_fid]. rewrite Plookup_upsert.
+        replace (pair_eqb (vl_bucket m, vl_fid m) (vl_bucket m, vl_fid m)) with true; [reflexivity|].
+        symmetry. now apply Peqb_spec.
+      * intro H. destruct (wi_hd0 b h H) as (H1 & H2 & H3). repeat split; try assumption.
+        rewrite Plookup_upsert. destruct (pair_eqb (vl_bucket h, vl_fid h) (vl_bucket m, vl_fid m)) eqn:E2; [|exact H3].
+        apply Peqb_spec in E2. inversion E2. lia.
+  - (* VlogDelete *)
+    destruct Hb as (B1 & B2 & B3).
+    set (m' := {| vl_bucket := vl_bucket m; vl_fid := vl_fid m; vl_offset := 0; vl_valid := false |}).
+    pose proof Hw as Hw0. destruct Hw.
+    constructor; cbn [apply set_vlog v_levels v_logseg v_logoff v_vlogs v_heads v_rafts v_regions]; fold m'; try assumption.
+    + now apply Psorted_upsert.
+    + intros k x. rewrite Plookup_upsert. destruct (pair_eqb k (vl_bucket m, vl_fid m)) eqn:E; [|apply wi_vl0].
+      apply Peqb_spec in E. intro H. inversion H; subst. split; [reflexivity|].
+      unfold vlog_ok. cbn. repeat split; try assumption. unfold two64. lia.
+    + destruct (head_is v (vl_bucket m) (vl_fid m)); [now apply Nsorted_remove|assumption].
+    + apply (heads_keep v _ m' _ Hw0). intros b h Hl.
+      destruct (head_is v (vl_bucket m) (vl_fid m)) eqn:Eh.
+      * rewrite Nlookup_remove in Hl by assumption. destruct (b =? vl_bucket m) eqn:E; [discriminate|].
+        split; [exact Hl|]. destruct (wi_hd0 b h Hl) as (H1 & _). intro F. inversion F. lia.
+      * split; [exact Hl|]. intro F. inversion F as [[F1 F2]].
+        destruct (wi_hd0 b h Hl) as (H1 & _).
+        assert (head_is v (vl_bucket m) (vl_fid m) = true) by (apply head_is_spec; exists h; split; congruence).
+        congruence.
+  - (* VlogUpdate *)
+    destruct Hb as (B1 & B2 & B3).
+    pose proof Hw as Hw0. destruct Hw.
+    constructor; cbn [apply set_vlog v_levels v_logseg v_logoff v_vlogs v_heads v_rafts v_regions]; try assumption.
+    + now apply Psorted_upsert.
+    + intros k x. rewrite Plookup_upsert. destruct (pair_eqb k (vl_bucket m, vl_fid m)) eqn:E; [|apply wi_vl0].
+      apply Peqb_spec in E. intro H. inversion H; subst. split; [reflexivity|]. repeat split; assumption.
+    + destruct (head_is v (vl_bucket m) (vl_fid m)); [|assumption].
+      destruct (vl_valid m); [now apply Nsorted_upsert|now apply Nsorted_remove].
+    + destruct (head_is v (vl_bucket m) (vl_fid m)) eqn:Eh; [destruct (vl_valid m) eqn:Ev|].
+      * intros b h. rewrite Nlookup_upsert. destruct (b =? vl_bucket m) eqn:E.
+        -- apply N.eqb_eq in E. intro H. inversion H; subst. repeat split; [exact Ev|].
+           rewrite Plookup_upsert.
+           replace (pair_eqb (vl_bucket h, vl_fid h) (vl_bucket h, vl_fid h)) with true; [reflexivity|].
+           symmetry. now apply Peqb_spec.
+        -- intro H. destruct (wi_hd0 b h H) as (H1 & H2 & H3). repeat split; try assumption.
+           rewrite Plookup_upsert. destruct (pair_eqb (vl_bucket h, vl_fid h) (vl_bucket m, vl_fid m)) eqn:E2; [|exact H3].
+           apply Peqb_spec in E2. inversion E2. lia.
+      * apply (heads_keep v _ m _ Hw0). intros b h Hl.
+        rewrite Nlookup_remove in Hl by assumption. destruct (b =? vl_bucket m) eqn:E; [discriminate|].
+        split; [exact Hl|]. destruct (wi_hd0 b h Hl) as (H1 & _). intro F. inversion F. lia.
+      * apply (heads_keep v _ m _ Hw0). intros b h Hl.
+        split; [exact Hl|]. intro F. inversion F as [[F1 F2]].
+        destruct (wi_hd0 b h Hl) as (H1 & _).
+        assert (head_is v (vl_bucket m) (vl_fid m) = true) by (apply head_is_spec; exists h; split; congruence).
+        congruence.
+  - (* RaftPointer *)
+    destruct Hw. constructor; cbn [apply v_levels v_logseg v_logoff v_vlogs v_heads v_rafts v_regions]; try assumption.
+    + now apply Nsorted_upsert.
+    + intros g x. rewrite Nlookup_upsert. destruct (g =? rp_group r) eqn:E; [|apply wi_rf0].
+      apply N.eqb_eq in E. intro H. inversion H; subst. split; [reflexivity|exact Hb].
+  - (* Region *)
+    destruct Hw. constructor; cbn [apply v_levels v_logseg v_logoff v_vlogs v_heads v_rafts v_regions]; try assumption.
+    + destruct (re_delete r); [now apply Nsorted_remove|now apply Nsorted_upsert].
+    + destruct (re_delete r) eqn:Ed.
+      * intros i x. rewrite Nlookup_remove by assumption. destruct (i =? rg_id (re_meta r)); [discriminate|apply wi_rg0].
+      * intros i x. rewrite Nlookup_upsert. destruct (i =? rg_id (re_meta r)) eqn:E; [|apply wi_rg0].
+        apply N.eqb_eq in E. intro H. inversion H; subst. split; [reflexivity|].
+        destruct r as [rm rd]. cbn [re_delete re_meta] in *. subst rd. split; assumption.
+Qed.
+
+Lemma winv_apply_all es : forall v, winv v -> Forall edit_ok es -> winv (apply_all v es).
+Proof.
+  induction es as [|e es IH]; intros v Hw Hok; [exact Hw|].
+  inversion Hok; subst. cbn [apply_all fold_left]. apply IH; [now apply winv_apply|assumption].
+Qed.
